@@ -128,6 +128,20 @@ impl TTLTicker {
     }
 }
 
+#[cfg(cached_verif)]
+impl TTLTicker {
+    /// (shard, key id, expiry) of every entry of the expiry index. Simulation harness only.
+    pub(crate) fn verif_snapshot(&self) -> Vec<(usize, KeyId, ExpireAfter)> {
+        let mut entries = Vec::new();
+        for (index, shard) in self.shards.iter().enumerate() {
+            for (key_id, expire_after) in shard.read().iter() {
+                entries.push((index, *key_id, *expire_after));
+            }
+        }
+        entries
+    }
+}
+
 #[cfg(test)]
 mod tests {
     use std::ops::Add;
